@@ -456,6 +456,28 @@ def _chunk(chunk, prop):
 HIST_STYLES = (None, "round43c", "list", "custom6var")
 
 
+def _chunk_big(chunk, prop):
+    """Larger trees under the reduced configuration set of the histories."""
+    res = Result(prop)
+    counts: dict = {}
+    for spec in chunk:
+        try:
+            tree, _ = gen.build(spec)
+            info = Info(tree)
+            for start in range(-1, len(info.nodes)):
+                for st in HIST_STYLES:
+                    for add_self in ((True,) if start == -1 else (True, False)):
+                        diffs = check_one(info, spec.typed, start, st, None, add_self, "template", "\n", decode=True)
+                        res.add_case(f"{spec.short()}@{start}|{st}|{add_self}", nontrivial=True)
+                        for clause, text in diffs:
+                            _add_violation(res, counts, Violation(prop, clause, func_name(start, st), {
+                                "kind": "format", "spec": _spec_json(spec), "start": start, "style": st, "title": None,
+                                "add_self": add_self, "repr": "template", "join": "\n"}, clip(text)))
+        except Exception:  # noqa: BLE001
+            res.errors.append(f"{spec.short()}: {traceback.format_exc()[-1000:]}")
+    return res
+
+
 def _mutated(spec, mut):
     """fresh tree, every accessor evaluated once (hist.warm), one structural change -> Info of the changed tree"""
     tree, nodes = gen.build(spec)
@@ -509,6 +531,11 @@ def run(prop: str, tier: str, only=None) -> Result:
         "(remove with / without keep_children, move_to every other position appended / prepended, add appended / prepended, remove_children, sort_children, deep copy below every other node), "
         f"then the Tree and every start node in styles {HIST_STYLES}, add_self on/off, template repr, with the decoder"
     )
+    big = gen.big_specs(seed() + 16, 9 if tier == "quick" else 60, lo=18, hi=40) + gen.big_specs(seed() + 17, 3 if tier == "quick" else 20, lo=18, hi=40, typed=True)
+    rb = parallel(_chunk_big, big, prop, prop=prop)
+    rb.exhaustive = False
+    total.merge(rb)
+    total.bounds["format of larger trees (sampled)"] = f"{len(big)} seeded trees with 18..40 nodes (long sibling runs / chains / mixed; a quarter typed), the Tree and every start node, styles {HIST_STYLES}, add_self on/off, template repr, with the decoder (VERIF_SEED={seed()})"
     if tier != "quick":
         rng = random.Random(seed() * 1_000_003 + 16)
         seven = [s for pv in gen.forests(7) for s in variants(pv)]
